@@ -84,15 +84,27 @@ class Flow:
         """a message of type rtype from node addr has been processed. Clean-history semantics: it answers the oldest
         outstanding request if that request accepts it; expired requests in front of it are dropped."""
         n = self.node(addr)
-        self.expire(n)
-        if n.out and rtype in model.resp_types(n.out[0]['type']):
-            n.out.pop(0)
+        # walk from the oldest awaited answer: the first entry that accepts this type is answered (once), expired ones go, the first
+        # entry that is neither ends the walk
+        matched = False
+        while n.out:
+            r = n.out[0]
+            if not matched and rtype in model.resp_types(r['type']):
+                n.out.pop(0)
+                matched = True
+            elif self.now - r['t'] >= model.EXPIRY_S:
+                n.out.pop(0)
+            else:
+                break
         return self._try_release(n)
 
     def stall(self, addr, on):
         n = self.node(addr)
         n.stalled = bool(on)
         released = []
+        # the notice is a message from that node: the opportunity to notice that awaited answers have expired. A node that has just said
+        # "stalled" gets nothing, however much budget that frees
+        self.expire(n)
         if not on:
             # every node beneath (and the node itself) may now be free
             for a, m in sorted(self.nodes.items()):
